@@ -7,7 +7,7 @@ import math
 import numpy as np
 import pandas as pd
 
-REQ = ['From PL Require Import Core.Broadcast.']
+REQ = ['From PL Require Import Core.Broadcast Core.BroadcastOpts.']
 
 NAMES = ['a', 'b', 'c', 'd', 'e', '', 0, 1]  # level-name pool; model name = position in this list
 ODD_NAMES = ['', 0, 1]                     # valid pandas level names that are falsy / not strings (e.g. after set_index(0))
@@ -31,22 +31,41 @@ class Operand:
     (None = unnamed), unique key tuples, column names (for 'F').  Payload of row i, column j is
     base + 8 i + j (all distinct, integer valued: exact in floats)."""
 
-    def __init__(self, kind, levels, keys, cols=None, base=1000, name=None, mi1=False):
+    def __init__(self, kind, levels, keys, cols=None, base=1000, name=None, mi1=False, rng_index=False, ties=None):
         self.kind, self.levels, self.keys = kind, list(levels), [tuple(k) for k in keys]
         self.cols = list(cols) if cols else (['v'] if kind == 'S' else ['u', 'w'])
         self.base, self.name = base, name
         self.mi1 = bool(mi1) and len(self.levels) == 1   # index layout: the single level is held by a MultiIndex (from_arrays / from_frame)
+        # index layout: the single level is held by a pandas RangeIndex (the default index, possibly named; start / step read off
+        # the keys).  Only possible while the keys are an integer progression: an operand whose keys are not falls back to Index.
+        self.rng_index = bool(rng_index) and not self.mi1 and range_of(self.levels, self.keys) is not None
+        # value ties: ties[i] = number of the first row holding the same values as row i (None: all rows distinct)
+        self.ties = list(ties) if ties and len(ties) == len(self.keys) and any(t != i for i, t in enumerate(ties)) else None
 
     def clone(self, keys=None, cols=None):
+        ties = self.ties
+        if keys is not None and ties is not None:
+            # rows were dropped: keep the tie classes among the remaining rows
+            pos = {k: i for i, k in enumerate(self.keys)}
+            cls = [ties[pos[k]] for k in keys]
+            ties = [cls.index(c) for c in cls]
         return Operand(self.kind, self.levels, self.keys if keys is None else keys, self.cols if cols is None else cols,
-                       self.base, self.name, self.mi1)
+                       self.base, self.name, self.mi1, self.rng_index, ties)
+
+    def rep(self, i):
+        """representative of the value class of row i (i itself without ties)"""
+        return i if (i is None or i < 0 or self.ties is None) else self.ties[i]
 
     def value(self, i, j):
-        return float(self.base + 8 * i + j)
+        return float(self.base + 8 * self.rep(i) + j)
 
     def build(self):
         if len(self.levels) == 1 and self.mi1:
             idx = pd.MultiIndex.from_arrays([[k[0] for k in self.keys]], names=self.levels)
+        elif len(self.levels) == 1 and self.rng_index:
+            start, step = range_of(self.levels, self.keys)
+            idx = pd.RangeIndex(start, start + step * len(self.keys), step, name=self.levels[0])
+            assert isinstance(idx, pd.RangeIndex) and [(int(v),) for v in idx] == self.keys
         elif len(self.levels) == 1:
             idx = pd.Index([k[0] for k in self.keys], name=self.levels[0])
         else:
@@ -58,7 +77,8 @@ class Operand:
         return pd.DataFrame({c: [self.value(i, j) for i in range(n)] for j, c in enumerate(self.cols)}, index=idx, dtype=float)
 
     def row_of(self, vals):
-        """Which original row do these values belong to?  None = all NaN; -1 = neither (garbage)."""
+        """Which original row do these values belong to (with value ties: the first row of that value class)?
+        None = all NaN; -1 = neither (garbage)."""
         vals = [float(v) for v in vals]
         if all(math.isnan(v) for v in vals):
             return None
@@ -68,6 +88,8 @@ class Operand:
         if i != int(i) or not (0 <= int(i) < len(self.keys)):
             return -1
         i = int(i)
+        if self.rep(i) != i:
+            return -1
         return i if all(vals[j] == self.value(i, j) for j in range(len(vals))) else -1
 
     def describe(self):
@@ -75,11 +97,27 @@ class Operand:
              'cols': self.cols if self.kind == 'F' else None, 'base': self.base}
         if self.mi1:
             d['mi1'] = True
+        if self.rng_index:
+            d['range_index'] = True
+        if self.ties:
+            d['ties'] = list(self.ties)
         return d
 
     @staticmethod
     def from_description(d):
-        return Operand(d['kind'], d['levels'], [tuple(k) for k in d['keys']], d.get('cols'), d.get('base', 1000), mi1=d.get('mi1', False))
+        return Operand(d['kind'], d['levels'], [tuple(k) for k in d['keys']], d.get('cols'), d.get('base', 1000), mi1=d.get('mi1', False),
+                       rng_index=d.get('range_index', False), ties=d.get('ties'))
+
+
+def range_of(levels, keys):
+    """(start, step) if the keys of a one-level operand are the values of a RangeIndex (integer progression), else None"""
+    if len(levels) != 1 or not keys or any(type(k[0]) is not int for k in keys):
+        return None
+    v = [k[0] for k in keys]
+    step = (v[1] - v[0]) if len(v) > 1 else 1
+    if step == 0 or any(v[i] != v[0] + i * step for i in range(len(v))):
+        return None
+    return v[0], step
 
 
 def total_levels(lo, lp):
@@ -175,12 +213,22 @@ class Obs:
         self.unaligned = False  # the call returned the operands themselves, not aligned
         self.rows = None
         self.levels = None
+        self.prm_levels = None  # droplevel: level names of the returned parameter
+        self.prm_rows = None    # droplevel: [(key over the result levels without the dropped ones, prm row | None)]
         self.problems = []     # property-level problems (what, detail)
 
 
-def observe(O, P, obj, prm, status, p, o):
+W_DROP_INDEX = 'broadcast parameter (droplevel) does not have one row per key of the broadcast object without the dropped levels'
+
+
+def observe(O, P, obj, prm, status, p, o, droplevel=()):
     """Evaluates the property on what the implementation returned for operands O, P (descriptions) /
-    obj, prm (the pandas objects that were passed, after the call)."""
+    obj, prm (the pandas objects that were passed, after the call).
+
+    droplevel (names of index levels that only the object has): the returned parameter is indexed by the result levels
+    without the dropped ones -- the two results then have the same index up to the dropped levels: the keys of the
+    parameter are exactly the keys of the object with the dropped components removed, each once, and each row carries the
+    value the original parameter held for that key restricted to the parameter's levels (NaN if none)."""
     ob = Obs()
     if status == 'exc':
         ob.raised = p
@@ -189,6 +237,7 @@ def observe(O, P, obj, prm, status, p, o):
     zero_level_obj = O.kind == 'S' and O.levels == [None]       # parameter-set Series: its keys become columns
     lo = [] if zero_level_obj else O.levels
     lp = P.levels
+    D = [] if zero_level_obj else [n for n in droplevel if n in lo]
     # ---- result types
     if zero_level_obj:
         if not isinstance(o, pd.DataFrame) or [k[0] for k in O.keys] != list(o.columns):
@@ -204,12 +253,12 @@ def observe(O, P, obj, prm, status, p, o):
         """the results are the operands as they were passed (same rows in the same order): nothing was aligned"""
         try:
             return (len(o) == len(O.keys) and len(p) == len(P.keys) and o.index.nlevels == len(lo) and p.index.nlevels == len(lp)
-                    and [O.row_of(_rowvals(o, i)) for i in range(len(o))] == list(range(len(o)))
-                    and [P.row_of(_rowvals(p, i)) for i in range(len(p))] == list(range(len(p))))
+                    and [O.row_of(_rowvals(o, i)) for i in range(len(o))] == [O.rep(i) for i in range(len(o))]
+                    and [P.row_of(_rowvals(p, i)) for i in range(len(p))] == [P.rep(i) for i in range(len(p))])
         except Exception:
             return False
     # ---- identical index
-    if not (o.index.equals(p.index) and list(o.index.names) == list(p.index.names)):
+    if not D and not (o.index.equals(p.index) and list(o.index.names) == list(p.index.names)):
         bad(('the two results do not have the same index', '%r %r / %r %r' % (list(o.index.names), list(o.index)[:6], list(p.index.names), list(p.index)[:6])))
         ob.unaligned = themselves()
         return ob
@@ -219,9 +268,47 @@ def observe(O, P, obj, prm, status, p, o):
         ob.unaligned = themselves() and len(lo) + len(lp) > len(list(o.index.names)) and not zero_level_obj
         return ob
     order, pos_o, pos_p = lvl
+    tot = total_levels(lo, lp)
     ob.levels = list(o.index.names)      # as returned (the keys below are canonicalised to obj levels ++ new prm levels)
     ko = {k: i for i, k in enumerate(O.keys)} if not zero_level_obj else {(): 0}
     kp = {k: i for i, k in enumerate(P.keys)}
+    have_o, have_p = set(), set()
+    # ---- with droplevel: the parameter result on its own index (result levels without the dropped ones)
+    pdrop = None
+    if D:
+        keep = [j for j, n in enumerate(tot) if not (n is not None and n in D)]      # positions in total
+        exp_names = [tot[j] for j in keep]
+        got_names = list(p.index.names)
+        if got_names == exp_names:
+            perm = list(range(len(exp_names)))
+        elif sorted(map(repr, got_names)) == sorted(map(repr, exp_names)) and got_names.count(None) <= 1:
+            perm = [got_names.index(n) for n in exp_names]
+        else:
+            bad(('result level names are not obj levels + new parameter levels', 'parameter (droplevel=%r): %r' % (D, got_names)))
+            return ob
+        ob.prm_levels = got_names
+        # positions of the parameter's own levels inside a key over exp_names
+        pp = []
+        new = iter([keep.index(j) for j in range(len(lo), len(tot))])       # levels of the parameter are never dropped
+        for n in lp:
+            pp.append(keep.index(lo.index(n)) if (n is not None and n in lo) else next(new))
+        pdrop, prm_rows = {}, []
+        for i, k in enumerate(_keys_of(p.index)):
+            kc = tuple(k[j] for j in perm)
+            rp = tuple(kc[j] for j in pp)
+            exp_p = None if any(_isnan(c) for c in rp) else kp.get(rp)
+            got_p = P.row_of(_rowvals(p, i))
+            if got_p != P.rep(exp_p):
+                bad(('broadcast parameter row does not carry the original value of its key', 'droplevel=%r row %r: carries original row %r, expected %r' % (D, k, got_p, exp_p)))
+            else:
+                got_p = exp_p
+                if exp_p is not None:
+                    have_p.add(exp_p)
+            if kc in pdrop:
+                bad(('result index has duplicate keys', 'parameter (droplevel=%r): %r' % (D, kc)))
+            pdrop[kc] = got_p
+            prm_rows.append((kc, got_p))
+        ob.prm_rows = prm_rows
     rows = []
     for i, k in enumerate(_keys_of(o.index)):
         ro = tuple(k[j] for j in pos_o)
@@ -233,13 +320,31 @@ def observe(O, P, obj, prm, status, p, o):
             got_o = 0 if vals == [O.value(r, 0) for r in range(len(O.keys))] else (None if all(math.isnan(v) for v in vals) else -1)
         else:
             got_o = O.row_of(_rowvals(o, i))
-        got_p = P.row_of(_rowvals(p, i))
-        if got_o != exp_o:
+        if got_o != (exp_o if zero_level_obj else O.rep(exp_o)):
             bad(('broadcast object row does not carry the original value of its key', 'row %r: carries original row %r, expected %r' % (k, got_o, exp_o)))
-        if got_p != exp_p:
-            bad(('broadcast parameter row does not carry the original value of its key', 'row %r: carries original row %r, expected %r' % (k, got_p, exp_p)))
-        rows.append((tuple(k[j] for j in order), got_o, got_p))
+        else:
+            got_o = exp_o                # with value ties: the row of that key (it holds these values)
+            if exp_o is not None:
+                have_o.add(exp_o)
+        kt = tuple(k[j] for j in order)
+        if D:
+            # the parameter row of this key is the one at the key without the dropped components
+            got_p = pdrop.get(tuple(kt[j] for j in keep), -1)
+        else:
+            got_p = P.row_of(_rowvals(p, i))
+            if got_p != P.rep(exp_p):
+                bad(('broadcast parameter row does not carry the original value of its key', 'row %r: carries original row %r, expected %r' % (k, got_p, exp_p)))
+            else:
+                got_p = exp_p
+                if exp_p is not None:
+                    have_p.add(exp_p)
+        rows.append((kt, got_o, got_p))
     ob.rows = rows
+    if D:
+        want = {tuple(r[0][j] for j in keep) for r in rows}
+        if want != set(pdrop):
+            bad((W_DROP_INDEX, 'droplevel=%r: keys only in the object %r, only in the parameter %r'
+                 % (D, sorted(want - set(pdrop), key=repr)[:6], sorted(set(pdrop) - want, key=repr)[:6])))
     # ---- no row may appear twice, no data row with a partner (or a complete key) may be lost
     if len(set(r[0] for r in rows if not any(_isnan(c) for c in r[0]))) != len([r for r in rows if not any(_isnan(c) for c in r[0])]):
         bad(('result index has duplicate keys', repr([r[0] for r in rows][:8])))
@@ -249,32 +354,43 @@ def observe(O, P, obj, prm, status, p, o):
     sub_p = {tuple(k[lp.index(n)] for n in sh) for k in P.keys}
     new_p = len(total_levels(lo, lp)) > len(lo)
     only_o = [n for n in lo if n is None or n not in lp]
-    have = {r[1] for r in rows}, {r[2] for r in rows}
+    # have_*: original rows found in the result under their own (restricted) key, carrying their values
     if sh:
         need_o = [i for i, k in enumerate(okeys) if (not new_p) or tuple(k[lo.index(n)] for n in sh) in sub_p]
         need_p = [i for i, k in enumerate(P.keys) if (not only_o) or tuple(k[lp.index(n)] for n in sh) in sub_o]
     else:
         need_o = list(range(len(okeys))) if P.keys else []
         need_p = list(range(len(P.keys))) if okeys else []
-    if [i for i in need_o if i not in have[0]]:
-        bad(('result misses rows of the object', 'original rows %r' % [i for i in need_o if i not in have[0]][:8]))
-    if [i for i in need_p if i not in have[1]]:
-        bad(('result misses rows of the parameter', 'original rows %r' % [i for i in need_p if i not in have[1]][:8]))
+    if [i for i in need_o if i not in have_o]:
+        bad(('result misses rows of the object', 'original rows %r' % [i for i in need_o if i not in have_o][:8]))
+    if [i for i in need_p if i not in have_p]:
+        bad(('result misses rows of the parameter', 'original rows %r' % [i for i in need_p if i not in have_p][:8]))
     return ob
 
 
 # ----------------------------------------------------------------------------------------- Coq literals
 
 class Enc:
-    """injective map key value -> Z, level name -> nat"""
+    """injective map key value -> Z (small non-negative integers stand for themselves, so that the values of a RangeIndex
+    are the model's range values), level name -> nat"""
     def __init__(self):
         self.d = {}
 
     def z(self, v):
+        if type(v) is int and 0 <= v < 100000:
+            return v
         k = (type(v).__name__, v)
         if k not in self.d:
-            self.d[k] = len(self.d) + 1
+            self.d[k] = 1000000 + len(self.d)
         return self.d[k]
+
+
+def ikind_lit(X):
+    """index kind of an operand: Index / MultiIndex / RangeIndex start step"""
+    if X.rng_index:
+        start, step = range_of(X.levels, X.keys)
+        return '(IRange (%d) (%d))' % (start, step)
+    return 'IIndex' if (len(X.levels) == 1 and not X.mi1) else 'IMulti'
 
 
 def name_lit(n):
@@ -301,11 +417,13 @@ def rows_lit(enc, rows):
     return '[' + '; '.join('(%s, %s, %s)' % (key_lit(enc, k), opt_lit(a), opt_lit(b)) for k, a, b in rows) + ']'
 
 
-def case_term(O, P, ob):
-    """check_case_top term for a frame-to-frame case (None if the observation cannot be expressed, e.g. NaN key components)."""
+def case_term(O, P, ob, D=None):
+    """check_case_opts term for a frame-to-frame case (None if the observation cannot be expressed, e.g. NaN key components)."""
     enc = Enc()
-    # the object is passed as it is (kind, level names, keys): which path it takes is decided by the model's dispatch
+    # the object is passed as it is (kind, index kind, level names, keys): which path it takes is decided by the model's dispatch
     # [is_paramset] (check_case_top); the observation `ob` was canonicalised with the oracle's reading of the documented rule
+    D = [n for n in (D or []) if n in O.levels and not (O.kind == 'S' and O.levels == [None])]
+    plv, prows = '[]', '[]'
     if ob.raised is not None:
         exp, lv = 'Raise', '[]'
     elif ob.unaligned:
@@ -316,8 +434,15 @@ def case_term(O, P, ob):
         if any(_isnan(c) for r in ob.rows for c in r[0]) or any(r[1] == -1 or r[2] == -1 for r in ob.rows):
             return None
         exp, lv = 'Rows ' + rows_lit(enc, ob.rows), names_lit(ob.levels)
-    return 'check_case_top %s %s %s %s %s %s (%s)' % ('KSeries' if O.kind == 'S' else 'KFrame', names_lit(O.levels), keys_lit(enc, O.keys),
-                                                      names_lit(P.levels), keys_lit(enc, P.keys), lv, exp)
+        if D:
+            if ob.prm_rows is None or any(_isnan(c) for r in ob.prm_rows for c in r[0]) or any(r[1] == -1 for r in ob.prm_rows):
+                return None
+            plv = names_lit(ob.prm_levels)
+            prows = '[' + '; '.join('(%s, %s)' % (key_lit(enc, k), opt_lit(v)) for k, v in ob.prm_rows) + ']'
+    dl = '[' + '; '.join('%d%%nat' % NAMES.index(n) for n in D) + ']'
+    return 'check_case_opts %s %s %s %s %s %s %s %s %s (%s) %s %s' % (
+        'KSeries' if O.kind == 'S' else 'KFrame', ikind_lit(O), ikind_lit(P), names_lit(O.levels), keys_lit(enc, O.keys),
+        names_lit(P.levels), keys_lit(enc, P.keys), dl, lv, exp, plv, prows)
 
 
 # ----------------------------------------------------------------------------------------- generators
@@ -419,7 +544,53 @@ def gen_pair(rng, maxrows=6):
     for X in (O, P):
         if len(X.levels) == 1 and not (X is O and kind == 'paramset') and rng.random() < 0.08:
             X.mi1 = True
+    # index layout: a single level held by a RangeIndex (pandas' default index, named or not; mostly start 0 / step 1).  The other
+    # operand keeps the ORDER in which it lists the keys of that level (random), its values are renamed to the range's values.
+    on_prm = rng.random() < 0.6
+    X = P if on_prm else O
+    if len(X.levels) == 1 and not X.mi1 and kind != 'paramset' and rng.random() < 0.14:
+        O, P = with_range_index(rng, O, P, on_prm)
+    # value ties: rows of an operand holding equal values in all columns (two cycles with the same range and mean)
+    for X, pr in ((P, 0.3), (O, 0.12)):
+        if len(X.keys) >= 2 and not (X is O and kind == 'paramset') and rng.random() < pr:
+            ties = []
+            for i in range(len(X.keys)):
+                ties.append(rng.choice(sorted(set(ties))) if ties and rng.random() < 0.55 else i)
+            X.ties = ties if any(t != i for i, t in enumerate(ties)) else None
     return O, P
+
+
+def with_range_index(rng, O, P, on_prm):
+    """The single index level of P (on_prm) / O is held by a RangeIndex: its keys become start, start+step, ...; the values of
+    the same-named level of the other operand are renamed consistently (its row order is kept)."""
+    X, Y = (P, O) if on_prm else (O, P)
+    n = len(X.keys)
+    start, step = rng.choice([0, 0, 0, 0, 1]), rng.choice([1, 1, 1, 1, 2])
+    new = {k[0]: start + i * step for i, k in enumerate(X.keys)}
+    name = X.levels[0]
+    X2 = Operand(X.kind, X.levels, [(new[k[0]],) for k in X.keys], X.cols, X.base, X.name, False, True, X.ties)
+    Y2 = Y
+    if name is not None and name in Y.levels:
+        j = Y.levels.index(name)
+        for k in Y.keys:
+            if k[j] not in new:
+                new[k[j]] = start + len(new) * step if rng.random() < 0.7 else 100 + len(new)
+        Y2 = Operand(Y.kind, Y.levels, [k[:j] + (new[k[j]],) + k[j + 1:] for k in Y.keys], Y.cols, Y.base, Y.name, Y.mi1, False, Y.ties)
+    return (Y2, X2) if on_prm else (X2, Y2)
+
+
+def gen_case(rng, maxrows=6):
+    """(obj, prm, droplevel): a pair of operands and the `droplevel` option of Broadcaster.broadcast -- None (not passed) or a
+    non-empty list of named index levels that only the object has (the way HaighDiagram.transform drops 'R')."""
+    O, P = gen_pair(rng, maxrows)
+    D = None
+    # not combined with integer level names: that layout is an open known finding of its own (pandas takes the name for a level
+    # number, also in groupby([...]) of the droplevel step; fixes/C13-integer-level-name.patch maps the droplevel names as well)
+    if not (O.kind == 'S' and O.levels == [None]) and not int_level_name(O, P):
+        cand = [n for n in O.levels if n is not None and n not in P.levels]
+        if cand and rng.random() < 0.4:
+            D = rng.sample(cand, rng.randint(1, len(cand)))
+    return O, P, D
 
 
 def in_quantifier(O, P):
